@@ -43,6 +43,18 @@ def _contains_lambda(t, seen):
     return any(_contains_lambda(c, seen) for c in t.children())
 
 
+def _mentions(f, v, seen=None):
+    seen = set() if seen is None else seen
+    if f.get_id() in seen:
+        return False
+    seen.add(f.get_id())
+    if f.eq(v):
+        return True
+    if z3.is_quantifier(f):
+        return _mentions(f.body(), v, seen)
+    return any(_mentions(c, v, seen) for c in f.children())
+
+
 def lift_lambda(t):
     """An array-valued term built from lambdas (gathered / sliced / element-wise arrays) -> an application G(c1..cn) of an
     uninterpreted function to the free constants of the term, G being keyed by the term's structure.  Structurally equal
@@ -77,6 +89,18 @@ _KEEP = []
 
 
 class NumpyMixin:
+    def mat(self, st, n, t, kind):
+        """optionally replace an element-wise defined content term by a named array with its defining axiom
+        (forall k in range: A[k] == body(k), pattern A[k]); keeps vectorised numpy code from nesting lambdas"""
+        if not getattr(self, "materialize", False) or not z3.is_quantifier(t) and z3.is_const(t):
+            return t
+        from .values import SORTS
+        a = fresh("arr", z3.ArraySort(I, SORTS[kind]))
+        k = fresh("k", I)
+        body = z3.simplify(t[k])
+        st.pc.append(z3.ForAll([k], z3.Implies(z3.And(k >= 0, k < to_z3(n, "int")), a[k] == body), patterns=[a[k]]))
+        return a
+
     # ------------------------------------------------------------ array access
     def arr_term(self, st, ref):
         """(length, z3 array term) with views resolved"""
@@ -385,17 +409,24 @@ class NumpyMixin:
         else:
             fr2 = self.sub_frame(fr)
             fr2.spec = True  # element-wise numpy division does not raise
-            if opn in ("Div", "FloorDiv", "Mod") and not fr.spec:
+            if opn in ("Div", "FloorDiv", "Mod") and not fr.spec and not getattr(self, "total_fdiv", False):
                 # numpy emits a warning and produces inf/nan; treated as a definedness obligation
                 k = fresh("k", I)
                 yk = z3.substitute(to_z3(y), (i, k)) if is_sym(y) else to_z3(y)
                 self.oblige(st, z3.ForAll([k], z3.Implies(z3.And(k >= 0, k < to_z3(n, "int")), yk != 0)),
                             "safety", "elementwise-div-by-zero", node, fr)
+            npc = len(st.pc)
             r = self.scalar_binop(opn, x, y, st, fr2, node)
             kind = kind_of(r)
             r = to_z3(r)
+            # facts that the scalar operator stated about its (element) operands hold for every element
+            for j in range(npc, len(st.pc)):
+                f = st.pc[j]
+                if isinstance(f, z3.ExprRef) and _mentions(f, i):
+                    k = fresh("k", I)
+                    st.pc[j] = z3.ForAll([k], z3.substitute(f, (i, k)))
         unit = None
-        return st.alloc(HArr(kind, n, z3.Lambda([i], r), fresh=True, unit=unit))
+        return st.alloc(HArr(kind, n, self.mat(st, n, z3.Lambda([i], r), kind), fresh=True, unit=unit))
 
     def np2_binop(self, opn, a, b, ha, hb, st, fr, node):
         i, j = z3.Int("i!e"), z3.Int("j!e")
@@ -435,7 +466,7 @@ class NumpyMixin:
         if name == "invert":
             return st.alloc(HArr("bool", n, z3.Lambda([i], z3.Not(t[i])), fresh=True))
         r = self.ufun(name, [t[i]], st, fr, node, elementwise=(n, i))
-        return st.alloc(HArr(kind_of(r), n, z3.Lambda([i], to_z3(r)), fresh=True))
+        return st.alloc(HArr(kind_of(r), n, self.mat(st, n, z3.Lambda([i], to_z3(r)), kind_of(r)), fresh=True))
 
     # ------------------------------------------------------------ python list arithmetic with symbolic repeat counts
     def list_arith(self, opn, a, b, st, fr, node):
@@ -541,7 +572,8 @@ class NumpyMixin:
         elif name in ("sin", "cos"):
             s = ufunc("libm_sin", R, R)(x)
             c = ufunc("libm_cos", R, R)(x)
-            axiom(s * s + c * c == 1)
+            if not getattr(self, "light_trig", False):
+                axiom(s * s + c * c == 1)
             axiom(z3.And(r >= -1, r <= 1))
         elif name in ("arcsin", "asin"):
             domain(z3.And(x >= -1, x <= 1), "arcsin-domain")
@@ -582,8 +614,28 @@ class DTypeV:
 
 
 # pi as an uninterpreted positive real constant with loose rational bounds (enough for range reasoning)
-PI = z3.Real("PI")
+# pi is the double math.pi / numpy.pi as an exact rational (the code's own constant); the libm range axioms (arcsin in
+# [-pi/2, pi/2] ...) are stated against the same constant, i.e. about the rounded results the library returns
+PI = z3.RealVal("884279719003555/281474976710656")
 HALFPI = PI / 2
 D2R = PI / 180
 R2D = 180 / PI
-PI_AXIOMS = [PI > z3.RealVal("3.14159265358979"), PI < z3.RealVal("3.14159265358980")]
+PI_AXIOMS = []
+
+
+def _ax_arccos_decreasing():
+    """arccos is non-increasing on [-1, 1]"""
+    f = ufunc("libm_arccos", R, R)
+    x, y = z3.Reals("x!ax y!ax")
+    return z3.ForAll([x, y], z3.Implies(z3.And(-1 <= x, x <= y, y <= 1), f(x) >= f(y)), patterns=[z3.MultiPattern(f(x), f(y))])
+
+
+def _ax_arccos_cos():
+    """arccos(cos t) == t for 0 <= t <= pi"""
+    f = ufunc("libm_arccos", R, R)
+    g = ufunc("libm_cos", R, R)
+    t = z3.Real("t!ax")
+    return z3.ForAll([t], z3.Implies(z3.And(0 <= t, t <= PI), f(g(t)) == t), patterns=[g(t)])
+
+
+LIBM_AXIOMS = {"arccos-decreasing": _ax_arccos_decreasing, "arccos-cos": _ax_arccos_cos}
